@@ -10,7 +10,7 @@ open Gluon
 inductive Sem (d : Char) : List Item → Name → Prop where
   | nil : Sem d [] []
   | lit {c : Char} {is : List Item} {s : Name} : Sem d is s → Sem d (.lit c :: is) (c :: s)
-  | star {is : List Item} {s m : Name} (a : Name) : m = a ++ s → (∀ x ∈ a, x ≠ '\n') → Sem d is s → Sem d (.star :: is) m
+  | star {is : List Item} {s m : Name} (a : Name) : m = a ++ s → Sem d is s → Sem d (.star :: is) m
   | pct {is : List Item} {s m : Name} (a : Name) : m = a ++ s → (∀ x ∈ a, x ≠ d) → Sem d is s → Sem d (.pct :: is) m
 
 /-! ### the greedy loop -/
@@ -150,7 +150,7 @@ theorem run_sound (d : Char) (ae : Bool) (is : List Item) : ∀ (s r : Name), ru
       obtain ⟨t, e', hs, hae⟩ := ih s' r' hk
       refine ⟨t, by simp [e, e', er], ?_, hae⟩
       rw [er]
-      exact .star a rfl (fun x hx => by simpa using ha x hx) hs
+      exact .star a rfl hs
     | pct =>
       simp only [run] at h
       obtain ⟨a, s', r', e, ha, hk, er, _⟩ := loop_spec h
@@ -174,11 +174,11 @@ theorem run_complete (d : Char) (ae : Bool) {is : List Item} {q : Name} (hs : Se
     cases h : run d ae _ (_ ++ t) with
     | none => rw [h] at this; cases this
     | some r => simp
-  | star a e ha _ ih =>
+  | star a e _ ih =>
     intro t ht
     subst e
     simp only [run, List.append_assoc]
-    exact loop_complete a _ (fun x hx => by simpa using ha x hx) (ih t ht)
+    exact loop_complete a _ (fun _ _ => rfl) (ih t ht)
   | pct a e ha _ ih =>
     intro t ht
     subst e
@@ -242,7 +242,7 @@ theorem wild_of_sem {d : Char} {is : List Item} {n : Name} (h : Sem d is n) :
       simp [toItems] at hp
       obtain ⟨rfl, h1, h2⟩ := toItem_lit hp.1.symm
       exact .lit h1 h2 (ih p (by simp [toItems, hp.2]))
-  | star a e _ _ ih =>
+  | star a e _ ih =>
     intro p hp
     cases p with
     | nil => simp [toItems] at hp
@@ -261,27 +261,25 @@ theorem wild_of_sem {d : Char} {is : List Item} {n : Name} (h : Sem d is n) :
       subst this
       exact .pct a e (fun hd => ha d hd rfl) (ih p (by simp [toItems, hp.2]))
 
-theorem sem_of_wild {d : Char} {p n : Name} (h : Spec.Wild d p n) (hn : ∀ x ∈ n, x ≠ '\n') :
-    Sem d (toItems p) n := by
+theorem sem_of_wild {d : Char} {p n : Name} (h : Spec.Wild d p n) : Sem d (toItems p) n := by
   induction h with
   | nil => exact .nil
   | lit h1 h2 _ ih =>
     simp only [toItems, List.map_cons, toItem, h1, h2, if_false]
-    exact .lit (ih (fun x hx => hn x (by simp [hx])))
+    exact .lit ih
   | star a e _ ih =>
     subst e
     simp only [toItems, List.map_cons, toItem, if_true]
-    exact .star a rfl (fun x hx => hn x (by simp [hx])) (ih (fun x hx => hn x (by simp [hx])))
+    exact .star a rfl ih
   | pct a e ha _ ih =>
     subst e
     have : ('%' : Char) ≠ '*' := by decide
     simp only [toItems, List.map_cons, toItem, this, if_false, if_true]
-    exact .pct a rfl (fun x hx hxd => ha (hxd ▸ hx)) (ih (fun x hx => hn x (by simp [hx])))
+    exact .pct a rfl (fun x hx hxd => ha (hxd ▸ hx)) ih
 
-/-- under "no newline in the name" the compiled expression means the RFC wildcard relation -/
-theorem sem_iff_wild (d : Char) (p n : Name) (hn : ∀ x ∈ n, x ≠ '\n') :
-    Sem d (toItems p) n ↔ Spec.Wild d p n :=
-  ⟨fun h => wild_of_sem h p rfl, fun h => sem_of_wild h hn⟩
+/-- the compiled expression means the RFC wildcard relation -/
+theorem sem_iff_wild (d : Char) (p n : Name) : Sem d (toItems p) n ↔ Spec.Wild d p n :=
+  ⟨fun h => wild_of_sem h p rfl, fun h => sem_of_wild h⟩
 
 /-! ### patterns ending in `%` -/
 
@@ -376,20 +374,19 @@ theorem mem_take_drop_append {a rest : Name} {j m : Nat} {x : Char} (hm : j + m 
       simp [this]
 
 /-- Greedy preference never stops short: if the items match `q` wholly and the search is started at
-    any offset `j` inside `q` (of a text `q ++ t` without newline), a successful search ends at or
-    beyond the end of `q`. -/
+    any offset `j` inside `q` (of a text `q ++ t`), a successful search ends at or beyond the end
+    of `q`. -/
 theorem run_longest (d : Char) (is : List Item) (hE : EndsPct is) :
-    ∀ (q t : Name) (j : Nat) (r : Name), Sem d is q → (∀ x ∈ q ++ t, x ≠ '\n') → j ≤ q.length →
+    ∀ (q t : Name) (j : Nat) (r : Name), Sem d is q → j ≤ q.length →
       run d false is ((q ++ t).drop j) = some r → q.length ≤ j + r.length := by
   induction is with
   | nil => simp [EndsPct] at hE
   | cons it is ih =>
-    intro q t j r hs hnl hj h
+    intro q t j r hs hj h
     cases hs with
     | @lit c _ q' hs' =>
       have hne := endsPct_tail_ne hE (by simp)
       have ih' := ih (endsPct_cons hE hne) q' t
-      have hnl' : ∀ x ∈ q' ++ t, x ≠ '\n' := fun x hx => hnl x (by simp at hx ⊢; right; exact hx)
       cases j with
       | zero =>
         simp only [List.cons_append, List.drop_zero, run, if_true] at h
@@ -397,7 +394,7 @@ theorem run_longest (d : Char) (is : List Item) (hE : EndsPct is) :
         | none => simp [h1] at h
         | some r1 =>
           simp [h1] at h; subst h
-          have := ih' 0 r1 hs' hnl' (by omega) (by simpa using h1)
+          have := ih' 0 r1 hs' (by omega) (by simpa using h1)
           simp; omega
       | succ j' =>
         simp only [List.cons_append, List.drop_succ_cons] at h
@@ -416,15 +413,14 @@ theorem run_longest (d : Char) (is : List Item) (hE : EndsPct is) :
                 simpa [List.drop_drop, Nat.add_comm] using this.symm
               simp at hj
               by_cases hjq : j' + 1 ≤ q'.length
-              · have := ih' (j' + 1) r1 hs' hnl' hjq (by rw [← hxs]; exact h1)
+              · have := ih' (j' + 1) r1 hs' hjq (by rw [← hxs]; exact h1)
                 simp; omega
               · simp; omega
           · cases h
-    | @star _ q' _ a e ha hs' =>
+    | @star _ q' _ a e hs' =>
       subst e
       have hne := endsPct_tail_ne hE (by simp)
       have ih' := ih (endsPct_cons hE hne) q' t
-      have hnl' : ∀ x ∈ q' ++ t, x ≠ '\n' := fun x hx => hnl x (by simp at hx ⊢; grind)
       simp only [run] at h
       obtain ⟨n, r', hn, hk, er, _, hmax⟩ := loop_index h
       rw [List.drop_drop] at hk
@@ -436,10 +432,7 @@ theorem run_longest (d : Char) (is : List Item) (hE : EndsPct is) :
         · exact hc
         · exfalso
           have := hmax (a.length - j) (by omega) (by rw [hlen]; simp; omega)
-            (fun x hx => by
-              have hx1 := List.mem_of_mem_take hx
-              have hx2 := List.mem_of_mem_drop hx1
-              simpa using hnl x hx2)
+            (fun _ _ => rfl)
           rw [List.drop_drop] at this
           have e2 : j + (a.length - j) = a.length := by omega
           rw [e2, List.append_assoc, drop_append_left] at this
@@ -454,7 +447,7 @@ theorem run_longest (d : Char) (is : List Item) (hE : EndsPct is) :
         rw [← this]; exact hk
       simp at hj ⊢
       by_cases hjq : j + n - a.length ≤ q'.length
-      · have := ih' (j + n - a.length) r' hs' hnl' hjq hk'
+      · have := ih' (j + n - a.length) r' hs' hjq hk'
         omega
       · omega
     | @pct _ q' _ a e ha hs' =>
@@ -493,9 +486,8 @@ theorem run_longest (d : Char) (is : List Item) (hE : EndsPct is) :
         simp at hj ⊢
         omega
       · have ih' := ih (endsPct_cons hE hne) q' t
-        have hnl' : ∀ x ∈ q' ++ t, x ≠ '\n' := fun x hx => hnl x (by simp at hx ⊢; grind)
         by_cases hjq : j + n - a.length ≤ q'.length
-        · have := ih' (j + n - a.length) r' hs' hnl' hjq hk'
+        · have := ih' (j + n - a.length) r' hs' hjq hk'
           omega
         · omega
 
